@@ -7,6 +7,9 @@ CLAIMED = {
  "C02": ("validity predicate over generated/mutated/enumerated strings", "4", "about 1e6 generated strings per quick run (grammar-derived, mutated, token soup, Unicode, invalid UTF-8, boundary integers) plus the completely enumerated reduced grammar, under 4 configs: Parse returns exactly one of (function, nil) / (nil, documented syntax-check error), never panics, dies or hangs"),
  "C03": ("validity predicate + SPEC cross-check over generated (path, document) pairs", "4", "every accepted path of the C02 generators evaluated on generated documents (directed, free, empty, null/scalar roots; both decodings; failing user functions): result is (non-empty, nil) or (nil, documented runtime error), ErrorFunctionFailed only after a user function failed, and 'SPEC selects nothing' <=> error"),
  "C11": ("exhaustive small scope + random boundary search against a CPython-pinned slice model", "4", "all start/end/step in {omitted} U [-7..7] x lengths 0..6 enumerated completely, plus the boundary-magnitude cross product and random int64 triples up to length 40, compared with Python slice semantics"),
+ "C12": ("relational (mode parity) over generated cases with recording functions", "4", "each generated (path, document) evaluated with and without accessor mode: same length, Get() deep-equals the plain value, same error, identical function call logs, never an Accessor inside a function argument"),
+ "C14": ("SPEC call-log differential with recording functions", "4", "per function occurrence, the recorded arguments (count, order, values; list vs array-elements for aggregates) are compared with SPEC's expected call log; results must be the chained return values; ErrorFunctionFailed when only functions failed"),
+ "C15": ("SPEC failure-candidate differential", "4", "for every generated failing (path, document): the reported error (Go type, path text, expected, found) must match a failure SPEC finds at the deepest failing step, non-type failures preferred; exact for single-valued paths"),
  "C17": ("differential against PEGI, an interpreter of jsonpath.peg", "4", "Parse's accept/reject decision, error type, character position and near text compared with an independent interpreter executing the published grammar file plus the documented restrictions, on generated/mutated strings and the enumerated reduced grammar"),
 }
 PENDING = {}
